@@ -79,6 +79,47 @@ def Reg.ret (r : Reg) (a : Nat) (effective : Bool) : Reg :=
 
 def Reg.vals (r : Reg) : List Nat := r.done.map (·.2) ++ r.pend.map (·.2.1)
 
+/-- a register of the container as the monitors see it: which operations write it (with which value), and which
+results tell that the write took effect. Call `a` is recorded under id `a + 1`; id `0` is the initial value. -/
+structure RegSpec where
+  isW : Op → Option Nat
+  eff : Res → Bool
+
+/-- the register bookkeeping alone (the `ctxR` / `fnR` / `svR` components of `monC05`) -/
+def monReg (sp : RegSpec) : ObsMonitor Obs Reg where
+  init := { done := [(0, 0)] }
+  step := fun reg o =>
+    match o with
+    | .inv a op =>
+      (match sp.isW op with
+       | some v => some (reg.inv (a + 1) v)
+       | none => some reg)
+    | .ret a r => some (reg.ret (a + 1) (sp.eff r))
+    | _ => some reg
+
+def ctxSpec : RegSpec where
+  isW := fun op => match op with
+    | .setContext c _ => some c
+    | _ => none
+  eff := fun _ => true
+
+def fnSpec : RegSpec where
+  isW := fun op => match op with
+    | .setRoutine f => some f
+    | .setStateRoutine f => some f
+    | _ => none
+  eff := fun _ => true
+
+def svSpec : RegSpec where
+  isW := fun op => match op with
+    | .setState v => some v
+    | .swap (some v) => some v
+    | _ => none
+  eff := fun r => match r with
+    | .setS _ ch _ _ => ch
+    | .swapR _ _ ch _ _ => ch
+    | _ => true
+
 structure C05St where
   cfg : Cfg := {}
   running : List Nat := []
@@ -86,11 +127,13 @@ structure C05St where
   snaps : List (Nat × List Nat) := []           -- per call: running instances at its invocation
   doomed : List Nat := []                       -- instances superseded by a call that has returned
   croots : List Nat := []
-  ctxR : Reg := { done := [(0, 0)] }            -- the nil context initially (call id 0 is harmless: dominated by any real call)
+  ctxR : Reg := { done := [(0, 0)] }            -- the nil context initially (id 0; call `a` has id `a + 1`)
   fnR : Reg := { done := [(0, 0)] }
   svR : Reg := { done := [(0, 0)] }             -- stored state (StateRoutineContainer)
-  gotState : Option Nat := none                 -- result of a GetState with no state change in flight since
-  spend : Nat := 0                              -- SetState / SwapValue calls in flight
+  gotState : Option Nat := none                 -- result of a GetState that overlapped no SetState / SwapValue; none invoked since
+  spend : List Nat := []                        -- SetState / SwapValue calls in flight
+  sepoch : Nat := 0                             -- number of SetState / SwapValue invocations and returns so far
+  gsAt : List (Nat × Nat) := []                 -- GetState call ↦ `sepoch` at its invocation
   clears : List Nat := []                       -- SetContext(nil, _) / ClearContext calls
 deriving Repr
 
@@ -137,12 +180,13 @@ def monC05 : ObsMonitor Obs C05St where
     | .inv a op =>
       let ms := { ms with snaps := (a, ms.running) :: ms.snaps }
       (match op with
-       | .setContext c _ => some { ms with ctxR := ms.ctxR.inv a c, clears := if c == 0 then a :: ms.clears else ms.clears }
-       | .setRoutine f => some { ms with fnR := ms.fnR.inv a f }
-       | .setStateRoutine f => some { ms with fnR := ms.fnR.inv a f }
-       | .setState v => some { ms with gotState := none, spend := ms.spend + 1, svR := ms.svR.inv a v }
-       | .swap (some v) => some { ms with gotState := none, spend := ms.spend + 1, svR := ms.svR.inv a v }
-       | .swap none => some { ms with gotState := none, spend := ms.spend + 1 }
+       | .setContext c _ => some { ms with ctxR := ms.ctxR.inv (a + 1) c, clears := if c == 0 then a :: ms.clears else ms.clears }
+       | .setRoutine f => some { ms with fnR := ms.fnR.inv (a + 1) f }
+       | .setStateRoutine f => some { ms with fnR := ms.fnR.inv (a + 1) f }
+       | .setState v => some { ms with gotState := none, spend := a :: ms.spend, sepoch := ms.sepoch + 1, svR := ms.svR.inv (a + 1) v }
+       | .swap (some v) => some { ms with gotState := none, spend := a :: ms.spend, sepoch := ms.sepoch + 1, svR := ms.svR.inv (a + 1) v }
+       | .swap none => some { ms with gotState := none, spend := a :: ms.spend, sepoch := ms.sepoch + 1 }
+       | .getState => some { ms with gsAt := (a, ms.sepoch) :: ms.gsAt }
        | _ => some ms)
     | .ret a r =>
       let snap := lookupSnap ms.snaps a
@@ -150,13 +194,15 @@ def monC05 : ObsMonitor Obs C05St where
         | .setS _ ch _ _ => ch
         | .swapR _ _ ch _ _ => ch
         | _ => true
-      let ms := { ms with ctxR := ms.ctxR.ret a true, fnR := ms.fnR.ret a true, svR := ms.svR.ret a eff }
+      let ms := { ms with ctxR := ms.ctxR.ret (a + 1) true, fnR := ms.fnR.ret (a + 1) true, svR := ms.svR.ret (a + 1) eff }
       let ms := match r with
-        | .setS _ _ _ _ => { ms with gotState := none, spend := ms.spend - 1 }
-        | .swapR _ _ _ _ _ => { ms with gotState := none, spend := ms.spend - 1 }
+        | .setS _ _ _ _ => { ms with gotState := none, spend := ms.spend.filter (· != a), sepoch := ms.sepoch + 1 }
+        | .swapR _ _ _ _ _ => { ms with gotState := none, spend := ms.spend.filter (· != a), sepoch := ms.sepoch + 1 }
         | _ => ms
       let ms := match r with
-        | .state v => { ms with gotState := if ms.spend == 0 then some v else none }
+        -- the value is the stored state now only if no SetState / SwapValue overlapped the GetState call
+        | .state v => { ms with gotState := if ms.spend.isEmpty && (ms.gsAt.find? (·.1 == a)).map (·.2) == some ms.sepoch
+                                            then some v else none }
         | _ => ms
       -- SetContext / RestartRoutine that acted, any new routine / changed state, and ClearContext whatever it reports
       some (if doomsRet (ms.clears.contains a) r then { ms with doomed := snap ++ ms.doomed } else ms)
@@ -354,8 +400,8 @@ def monC14h : ObsMonitor Obs C14hSt where
     | .inv a op =>
       if op.quiet then some ms else
       let ms := match op with
-        | .setRoutine f => { ms with fnR := ms.fnR.inv a f }
-        | .setStateRoutine f => { ms with fnR := ms.fnR.inv a f }
+        | .setRoutine f => { ms with fnR := ms.fnR.inv (a + 1) f }
+        | .setStateRoutine f => { ms with fnR := ms.fnR.inv (a + 1) f }
         | _ => ms
       some { ms with running := ms.running.map (fun p => (p.1, true)), pendMut := a :: ms.pendMut,
                      expectRun := false,
@@ -365,13 +411,130 @@ def monC14h : ObsMonitor Obs C14hSt where
                                  then (a, k) :: ms.moved else ms.moved
                                | _, _ => ms.moved) }
     | .ret a r =>
-      let ms := { ms with pendMut := ms.pendMut.filter (· != a), fnR := ms.fnR.ret a true }
+      let ms := { ms with pendMut := ms.pendMut.filter (· != a), fnR := ms.fnR.ret (a + 1) true }
       let exp := match r, ms.moved.find? (·.1 == a) with
         | .bool true, some p => ms.running.any (·.1 == p.2) && ms.pendMut.isEmpty
         | _, _ => false
       some { ms with expectRun := ms.expectRun || exp }
     | .quiesce _ run _ => if ms.expectRun && run.isEmpty then none else some ms
     | _ => some ms
+
+/-! ## C14ha — the healthy-instance clause of `monC14h` alone -/
+
+structure C14haSt where
+  running : List (Nat × Bool) := []        -- (entry, touched)
+  pendMut : List Nat := []                 -- mutating API calls in flight
+  croots : List Nat := []
+  roots : List (Nat × Nat) := []           -- entry ↦ root context of the instance
+  seenLive : List Nat := []                -- instances whose context was seen live after entry
+deriving Repr
+
+/-- first clause of `monC14h` alone: an executing instance that was seen with a live context is not seen cancelled
+unless a mutating API call was in flight when it entered or has been invoked since, or its root context was
+cancelled by the environment. Proved to accept every model trace (`Props.C14ha_obs`): in particular no retry
+timer, stale error or stale pointer stops a healthy instance. -/
+def monC14ha : ObsMonitor Obs C14haSt where
+  init := {}
+  step := fun ms o =>
+    match o with
+    | .cbin k _ _ root =>
+      some { ms with running := ms.running ++ [(k, !ms.pendMut.isEmpty)], roots := (k, root) :: ms.roots }
+    | .cbout k _ => some { ms with running := ms.running.filter (·.1 != k) }
+    | .probeCtx k false => some { ms with seenLive := k :: ms.seenLive }
+    | .probeCtx k true =>
+      let healthy := ms.running.any (fun p => p.1 == k && !p.2) && ms.seenLive.contains k &&
+        (match ms.roots.find? (·.1 == k) with
+         | some p => !ms.croots.contains p.2
+         | none => false)
+      if healthy then none
+      else some { ms with running := ms.running.map fun p => if p.1 == k then (p.1, true) else p }
+    | .envCancel c => some { ms with croots := c :: ms.croots }
+    | .inv a op =>
+      if op.quiet then some ms else
+      some { ms with running := ms.running.map (fun p => (p.1, true)), pendMut := a :: ms.pendMut }
+    | .ret a _ => some { ms with pendMut := ms.pendMut.filter (· != a) }
+    | _ => some ms
+
+/-! ## C05c — context lineage clause of C05 alone -/
+
+structure C05cSt where
+  info : List (Nat × Nat) := []                 -- entry ↦ root context
+  ctxR : Reg := { done := [(0, 0)] }
+deriving Repr
+
+/-- context-lineage clause of `monC05` alone: an instance seen with a live context derives from a context that is
+possibly the container's current one (set by a SetContext call that is not known to be overwritten: the latest one
+under every linearization of the concurrent calls). Proved to accept every model trace (`Props.C05c_obs`). -/
+def monC05c : ObsMonitor Obs C05cSt where
+  init := {}
+  step := fun ms o =>
+    let ok : Bool := match o with
+      | .probeCtx k false =>
+        (match ms.info.find? (·.1 == k) with
+         | some p => p.2 != 0 && ms.ctxR.vals.contains p.2
+         | none => true)
+      | _ => true
+    if ok then
+      match (monReg ctxSpec).step ms.ctxR o with
+      | some r => some { info := (match o with
+                                  | .cbin k _ _ root => (k, root) :: ms.info
+                                  | _ => ms.info), ctxR := r }
+      | none => none
+    else none
+
+/-! ## C05l — the lineage clauses of C05 alone -/
+
+structure C05lSt where
+  cfg : Cfg := {}
+  info : List (Nat × Nat × Nat × Nat) := []     -- entry ↦ (f, arg, root)
+  croots : List Nat := []
+  ctxR : Reg := { done := [(0, 0)] }
+  fnR : Reg := { done := [(0, 0)] }
+  svR : Reg := { done := [(0, 0)] }
+deriving Repr
+
+/-- lineage clauses of `monC05` alone. (1) An instance seen with a live context stems from a possibly-current
+context, a possibly-current routine function and (state variant) a possibly-current non-empty stored state —
+"possibly current": given to a call that is in flight, or that has returned and is not known to be overwritten by
+a call invoked after its return. (2) At a quiescence line at most one executing instance has a live context, and
+it stems from a possibly-current context that the environment has not cancelled, a possibly-current function and
+(state variant) a non-empty state. Proved to accept every model trace (`Props.C05l_obs`). -/
+def monC05l : ObsMonitor Obs C05lSt where
+  init := {}
+  step := fun ms o =>
+    let ok : Bool := match o with
+      | .probeCtx k false =>
+        (match lookupInfo ms.info k with
+         | some (f, arg, root) =>
+           root != 0 && ms.ctxR.vals.contains root && f != 0 && ms.fnR.vals.contains f &&
+             (!ms.cfg.state || (arg != 0 && ms.svR.vals.contains arg))
+         | none => true)
+      | .quiesce _ _ live =>
+        (match live with
+         | [] => true
+         | [k] =>
+           (match lookupInfo ms.info k with
+            | some (f, arg, root) =>
+              root != 0 && ms.ctxR.vals.contains root && !ms.croots.contains root && f != 0 &&
+                ms.fnR.vals.contains f && (!ms.cfg.state || arg != 0)
+            | none => false)
+         | _ => false)
+      | _ => true
+    if ok then
+      match (monReg ctxSpec).step ms.ctxR o, (monReg fnSpec).step ms.fnR o, (monReg svSpec).step ms.svR o with
+      | some c, some f, some v =>
+        some { cfg := (match o with
+                       | .cfg c' => c'
+                       | _ => ms.cfg),
+               info := (match o with
+                        | .cbin k f' arg root => (k, f', arg, root) :: ms.info
+                        | _ => ms.info),
+               croots := (match o with
+                          | .envCancel c' => c' :: ms.croots
+                          | _ => ms.croots),
+               ctxR := c, fnR := f, svR := v }
+      | _, _, _ => none
+    else none
 
 /-! ## C05a — the first sentence of C05 alone -/
 
